@@ -197,7 +197,9 @@ class AbsKDDataset(VAbs):
 
     def hasattr(self, name, st, eng):
         if name.startswith("getall_") or name.startswith("getitem_"):
-            return _fn(self.name + "$has", self.idx, z3.BoolSort(), (self._name_term(name),))
+            # a bulk accessor and the per-sample accessor of the same item exist independently of each other
+            kind = "$has_getall" if name.startswith("getall_") else "$has_getitem"
+            return _fn(self.name + kind, self.idx, z3.BoolSort(), (self._name_term(name),))
         return z3.BoolVal(name in ("root_dataset", "all_wrappers", "all_wrapper_types", "dispose", "worker_init_fn",
                                    "collators", "fused_operations", "requires_propagate_ctx", "has_wrapper",
                                    "has_wrapper_type", "get_wrappers_of_type", "getshape_class", "getdim_class"))
